@@ -93,8 +93,65 @@ func splitTop(s, op string) []string {
 }
 
 // Formula translates a boolean contract clause.
+// rewriteNestedImplies turns "( A ==> B )" groups into "implies(A, B)" so that the
+// Go expression parser accepts them.
+func rewriteNestedImplies(text string) string {
+	for iter := 0; iter < 50; iter++ {
+		changed := false
+		depthStart := []int{}
+		for i := 0; i < len(text); i++ {
+			switch text[i] {
+			case '(':
+				depthStart = append(depthStart, i)
+			case ')':
+				if len(depthStart) == 0 {
+					return text
+				}
+				st := depthStart[len(depthStart)-1]
+				depthStart = depthStart[:len(depthStart)-1]
+				inner := text[st+1 : i]
+				// only plain parenthesised groups (not call argument lists)
+				isCall := st > 0 && (text[st-1] == '_' || (text[st-1] >= 'a' && text[st-1] <= 'z') || (text[st-1] >= 'A' && text[st-1] <= 'Z') || (text[st-1] >= '0' && text[st-1] <= '9'))
+				if isCall {
+					// rewrite each argument separately
+					argsT := splitTop(inner, ",")
+					any := false
+					for ai, a := range argsT {
+						if ps := splitTop(a, "==>"); len(ps) > 1 {
+							r := strings.TrimSpace(ps[len(ps)-1])
+							for k := len(ps) - 2; k >= 0; k-- {
+								r = "implies(" + strings.TrimSpace(ps[k]) + ", " + r + ")"
+							}
+							argsT[ai] = " " + r
+							any = true
+						}
+					}
+					if any {
+						text = text[:st+1] + strings.Join(argsT, ",") + text[i:]
+						changed = true
+					}
+				} else if ps := splitTop(inner, "==>"); len(ps) > 1 {
+					r := strings.TrimSpace(ps[len(ps)-1])
+					for k := len(ps) - 2; k >= 0; k-- {
+						r = "implies(" + strings.TrimSpace(ps[k]) + ", " + r + ")"
+					}
+					text = text[:st] + r + text[i+1:]
+					changed = true
+				}
+			}
+			if changed {
+				break
+			}
+		}
+		if !changed {
+			return text
+		}
+	}
+	return text
+}
+
 func (c *SpecCtx) Formula(text string) Term {
-	text = strings.TrimSpace(text)
+	text = rewriteNestedImplies(strings.TrimSpace(text))
 	if ps := splitTop(text, "<==>"); len(ps) == 2 {
 		return eq(c.Formula(ps[0]), c.Formula(ps[1]))
 	}
